@@ -10,10 +10,10 @@ open SpatialId
 
 /-- numeric literals of `integrate.VerticalZoom` -/
 theorem facts_integrate_VerticalZoom :
-    Gen.funcFacts.lookup "integrate.VerticalZoom" = some ["i:0", "i:1", "i:2"] := by decide
+    Gen.funcFacts.lookup "integrate.VerticalZoom" = some ["i:2"] := by decide
 
 /-- numeric literals of `object.(ExtendedSpatialID).Higher` -/
 theorem facts_object_ExtendedSpatialID_Higher :
-    Gen.funcFacts.lookup "object.(ExtendedSpatialID).Higher" = some ["i:0", "i:2"] := by decide
+    Gen.funcFacts.lookup "object.(ExtendedSpatialID).Higher" = some ["i:2"] := by decide
 
 end SpatialId.FactsZoom
